@@ -1,13 +1,9 @@
 SPECIFICATION FairSpec
 CONSTANTS
   T = 2
-  MaxDgrams = 3
+  MaxDgrams = 2
   UseMutex = TRUE
   RearmWindow = FALSE
-  HandOff = FALSE
-INVARIANT NoRace
-INVARIANT ResultComplete
-INVARIANT ResultSound
-INVARIANT WindowAbsolute
+  HandOff = TRUE
 PROPERTY ReaderQuits
 CHECK_DEADLOCK FALSE
